@@ -163,6 +163,18 @@ func runC05(c *core.Ctx) {
 		if e.name != "ToSeq" {
 			stageLifecycleRules(c, s, lifecycleOpts{only: "closing"})
 		}
+		// "with functions that do not fail": the error hand-off is entered exactly when the function reported an
+		// error - a test on anything else sends successful elements down the error path (shared with C07)
+		if e.name == "Map" || e.name == "FMap" {
+			if c.Rules["error-branch"] == nil {
+				c.Doc("error-branch", 2, "the error hand-off is entered exactly when the function reported an error")
+			}
+			errIdx := 1
+			if e.name == "FMap" {
+				errIdx = -1
+			}
+			errorBranchRule(c, s, errIdx)
+		}
 	}
 	// the images the stages deliver are the images of the user's function: the wrappers the constructors build apply
 	// it exactly once per element and hand its result on unchanged (shared with C07)
